@@ -54,7 +54,12 @@ Record ucmd := { c_name : nat; c_id : nat; c_init : bool; c_started : bool; c_it
 Inductive ev :=
 | EUInit (n id : nat) | EUExec (n id : nat) (iter : Z) | EUFinal (n id : nat)
 | EHwWrite (vals : list Z)
-| EStarted (rid : nat) | EStoppedRun.
+| EStarted (rid : nat) | EStoppedRun              (* set_run_id / clear_run_id *)
+| EPause (already : bool) (captured : list (nat * Z))      (* Pause._run: was the run already paused; what it captured *)
+| EUnpause (restored : option (list (nat * Z)))            (* Unpause._run: the captured state it applied, if any *)
+| EClock (s : sysst) (dt : Z) (before after : list Z)      (* update_calculated_tags: System State, increment, the four clocks before and after *)
+| EOut (user : bool) (i : nat) (v : Z)                      (* an output tag is assigned: by the user / a user-issued command, or by a method-issued command *)
+| EError.                                                  (* set_error_state *)
 
 Record E := {
   started : bool; paused : bool; holding : bool; stopping : bool;
@@ -196,7 +201,7 @@ Section Cfg.
     fold_left (fun o p => upd_nth o (fst p) (snd p)) cap o.
 
   Definition set_error_state (e : E) : E :=
-    set_sys (upd_flags (set_err e true true) (started e) true (holding e) (stopping e)) Paused.
+    emit (set_sys (upd_flags (set_err e true true) (started e) true (holding e) (stopping e)) Paused) EError.
 
   (* write_process_image: nothing unless a run is started; otherwise every output register gets its tag value;
      a HardwareLayerException puts the engine in the error state (once) *)
@@ -234,7 +239,8 @@ Section Cfg.
     set_cmds e (reg e) (map (fun x => if Nat.eqb (c_name x) (c_name c) then c else x) (uods e)).
 
   (* bodies shared by Unpause._run / Unhold._run and by the timed Pause / Hold and their cancel() *)
-  Definition unpause_body (e : E) : E :=
+  Definition unpause_body (e0 : E) : E :=
+    let e := emit e0 (EUnpause (prev e0)) in
     let e1 := upd_flags e (started e) false (holding e) (stopping e) in
     let e2 := set_sys e1 (if holding e then Holding else Running) in
     let e3 := match prev e2 with
@@ -324,27 +330,43 @@ Section Cfg.
     let e2 := new_run e1 in
     let e3 := set_err (set_sys e2 Running) false (last_err e2) in
     (* Run Time, Process Time := 0; tracking.enable(); on_start: Block Time / Scope Time reset, the block stack is cleared *)
-    set_trk (set_clk e3 0 0 0 0 (bpaused e3) false) true.
+    let e4 := set_io e3 None (outs e3) (hw e3) in      (* captured pre-pause values of an earlier run are dropped *)
+    set_trk (set_clk e4 0 0 0 0 false false) true.
 
   (* Stop, second tick *)
   Definition stop_pre (e : E) : E :=
     let '(e1, _) := apply_safe e in
     let e2 := upd_flags e1 (started e1) false false false in
-    let e3 := set_err e2 false (last_err e2) in
+    let e3 := set_io (set_err e2 false (last_err e2)) None (outs e2) (hw e2) in
     emit (set_run (set_sys (set_trk e3 false) Stopped) None (next_run e3)) EStoppedRun.
-  Definition stop_post (e5 : E) (m : mgr) : E * mgr :=
-    reset_manager (upd_flags e5 false (paused e5) (holding e5) (stopping e5)) m.
-  Definition stop_finish (e : E) (m : mgr) : E * mgr := stop_post (write_image (stop_pre e)) m.
+  Definition stop_flags (e5 : E) : E := upd_flags e5 false (paused e5) (holding e5) (stopping e5).
+  Definition stop_post (e5 : E) (m : mgr) : E * mgr := reset_manager (stop_flags e5) m.
+  Definition stop_core (e : E) : E := stop_flags (write_image (stop_pre e)).
+  Definition stop_finish (e : E) (m : mgr) : E * mgr := reset_manager (stop_core e) m.
   (* Restart, second and third tick *)
-  Definition restart_mid (e : E) (m : mgr) : E * mgr :=
-    let e1 := upd_flags e false false false false in
-    let e2 := emit (set_run (set_sys (set_trk e1 false) Stopped) None (next_run e1)) EStoppedRun in
-    reset_manager e2 m.
+  Definition restart_stop (e : E) : E :=
+    let e1 := set_io (upd_flags e false false false false) None (outs e) (hw e) in
+    emit (set_run (set_sys (set_trk e1 false) Stopped) None (next_run e1)) EStoppedRun.
+  Definition restart_mid (e : E) (m : mgr) : E * mgr := reset_manager (restart_stop e) m.
   Definition restart_finish (e : E) : E :=
-    let e1 := upd_flags e true false false (stopping e) in
+    let e1 := set_io (upd_flags e true false false (stopping e)) None (outs e) (hw e) in
     let e2 := new_run e1 in
-    let e3 := set_clk e2 (ptime e2) (rtime e2) 0 0 (bpaused e2) false in      (* on_start of the clock tags *)
+    let e3 := set_clk e2 0 0 0 0 false false in      (* Run Time, Process Time := 0; on_start of the clock tags *)
     set_sys (set_trk e3 true) Running.
+
+  (* Pause / Hold / Stop / Restart, first step *)
+  Definition pause_begin (e : E) : E :=
+    let e1 := set_sys (upd_flags e (started e) true (holding e) (stopping e)) Paused in
+    let '(e2, cap) := apply_safe e1 in
+    (* the values captured by the Pause that began this pause are kept: a second Pause would capture safe values *)
+    let stored := match prev e2 with None => cap | Some p => p end in
+    let e3 := emit (set_io e2 (Some stored) (outs e2) (hw e2)) (EPause (paused e) stored) in
+    set_clk e3 (ptime e3) (rtime e3) (btime e3) (stime e3) true (root_on e3).
+  Definition hold_begin (e : E) : E :=
+    let e1 := upd_flags e (started e) (paused e) true (stopping e) in
+    if paused e then e1 else set_sys e1 Holding.
+  Definition stop_begin (e : E) : E := upd_flags e (started e) (paused e) (holding e) true.
+  Definition restart_begin (e : E) : E := upd_flags (set_sys e Restarting) (started e) (paused e) (holding e) true.
 
   Inductive outcome := Yielded | Finished (failed : bool).
 
@@ -359,10 +381,7 @@ Section Cfg.
     | Info, _ => (e, m, c, Finished false)
     | Pause, O =>
         let endt := match i_durarg c with Some d => Some (now e + d) | None => None end in
-        let e1 := set_sys (upd_flags e (started e) true (holding e) (stopping e)) Paused in
-        let '(e2, cap) := apply_safe e1 in
-        let e3 := set_io e2 (Some cap) (outs e2) (hw e2) in
-        let e4 := set_clk e3 (ptime e3) (rtime e3) (btime e3) (stime e3) true (root_on e3) in
+        let e4 := pause_begin e in
         match endt with
         | Some t => if now e4 <? t
                     then (e4, m, {| i_name := Pause; i_id := i_id c; i_pc := 1; i_end := Some t; i_durarg := i_durarg c;
@@ -377,8 +396,7 @@ Section Cfg.
         end
     | Hold, O =>
         let endt := match i_durarg c with Some d => Some (now e + d) | None => None end in
-        let e1 := upd_flags e (started e) (paused e) true (stopping e) in
-        let e2 := if paused e then e1 else set_sys e1 Holding in
+        let e2 := hold_begin e in
         match endt with
         | Some t => if now e2 <? t
                     then (e2, m, {| i_name := Hold; i_id := i_id c; i_pc := 1; i_end := Some t; i_durarg := i_durarg c;
@@ -394,7 +412,7 @@ Section Cfg.
     | Stop, O =>
         if sys_eqb (sys e) Stopped || sys_eqb (sys e) Restarting then (e, m, c, Finished true)
         else
-          let e1 := upd_flags e (started e) (paused e) (holding e) true in
+          let e1 := stop_begin e in
           let '(e2, m2) := cancel_all e1 m Stop in
           (e2, m2, {| i_name := Stop; i_id := i_id c; i_pc := 1; i_end := None; i_durarg := None; i_complete := false;
                       i_failed := false; i_cancelled := false |}, Yielded)
@@ -402,7 +420,7 @@ Section Cfg.
     | Restart, O =>
         if sys_eqb (sys e) Stopped || sys_eqb (sys e) Restarting then (e, m, c, Finished true)
         else
-          let e1 := upd_flags (set_sys e Restarting) (started e) (paused e) (holding e) true in
+          let e1 := restart_begin e in
           let '(e2, m2) := cancel_all e1 m Restart in
           (e2, m2, {| i_name := Restart; i_id := i_id c; i_pc := 1; i_end := None; i_durarg := None; i_complete := false;
                       i_failed := false; i_cancelled := false |}, Yielded)
@@ -459,6 +477,7 @@ Section Cfg.
     existsb (fun l => memn a l && memn b l) overlaps.
 
   Definition set_out (e : E) (i : nat) (v : Z) : E := set_io e (prev e) (upd_nth (outs e) i v) (hw e).
+  Definition set_out_by (u : bool) (e : E) (i : nat) (v : Z) : E := emit (set_out e i v) (EOut u i v).
 
   (* _execute_uod_command; returns whether it raised *)
   Definition exec_uod (e : E) (m : mgr) (r : request) (n : nat) : E * mgr * bool :=
@@ -490,7 +509,7 @@ Section Cfg.
     else
       let it := c_iter c + 1 in
       let e5 := emit e4 (EUExec n (c_id c) it) in
-      let e6 := match u_out (r_scr r) with Some (o, v) => set_out e5 o (v + it) | None => e5 end in
+      let e6 := match u_out (r_scr r) with Some (o, v) => set_out_by (r_user r) e5 o (v + it) | None => e5 end in
       let fails := match u_fail (r_scr r) with Some k => Z.of_nat k <=? it | None => false end in
       if fails then
         (* local clean-up: cancel + finalize, then the exception propagates *)
@@ -557,16 +576,22 @@ Section Cfg.
 
   Definition interp_runs (e : E) : bool := started e && negb (paused e) && negb (holding e) && negb (stopping e).
 
-  Definition update_clocks (e : E) (dt : Z) : E :=
+  Definition clocks (e : E) : list Z := [ptime e; rtime e; btime e; stime e].
+  Definition advance_clocks (e : E) (dt : Z) : E :=
     let p := if sys_eqb (sys e) Running then ptime e + dt else ptime e in
     let r := if sys_eqb (sys e) Stopped || sys_eqb (sys e) Restarting then rtime e else rtime e + dt in
-    if bpaused e then set_clk e p r (btime e) (stime e) true (root_on e)
+    (* Block Time / Scope Time: on_tick does nothing while the tag is paused or the System State is not Running *)
+    if bpaused e || negb (sys_eqb (sys e) Running) then set_clk e p r (btime e) (stime e) (bpaused e) (root_on e)
     else
       (* BlockTimeTag.on_tick: every stack item advances, the value is the top item or 0;
          ScopeTimeTag.on_tick: every timer advances, the value is the timer of the top of the stack or 0 *)
       let b := if root_on e then btime e + dt else 0 in
       let t := if s_on e then sT e + dt else sT e in
       set_scope (set_clk e p r b (if s_on e then t else 0) false (root_on e)) t (s_on e).
+  Definition update_clocks (e : E) (dt : Z) : E :=
+    let e' := advance_clocks e dt in emit e' (EClock (sys e) dt (clocks e) (clocks e')).
+
+  Definition root_push (e : E) : E := set_scope (set_clk e (ptime e) (rtime e) 0 (stime e) (bpaused e) true) 0 true.
 
   Definition tick (e : E) (i : tick_in) : E :=
     let e0 := set_now e (t_time i) (t_write_ok i) in
@@ -577,7 +602,7 @@ Section Cfg.
                    starts the root block (a new BlockTimeTag stack item) and activates the root scope (timer := 0) *)
                 let e'' := match iticks e' with
                            | O => set_iticks e' 1
-                           | S O => set_iticks (set_scope (set_clk e' (ptime e') (rtime e') 0 (stime e') (bpaused e') true) 0 true) 2
+                           | S O => set_iticks (root_push e') 2
                            | _ => e'
                            end in
                 if t_interp_raises i then set_error_state e'' else e''
@@ -600,7 +625,7 @@ Section Cfg.
     | OTick i => (tick e i, true)
     | OUser r n => if validate e n then (schedule e r, true) else (e, false)
     | OUserUod r => (schedule e r, true)
-    | OSetOut o v => (set_out e o v, true)
+    | OSetOut o v => (set_out_by true e o v, true)
     | ONop => (e, false)
     end.
 End Cfg.
@@ -611,5 +636,7 @@ Definition init (n_out : nat) (outs0 : list Z) : E :=
      ptime := 0; rtime := 0; btime := 0; stime := 0; bpaused := false; root_on := false; sT := 0; s_on := false; iticks := 0%nat; trk := false; creqs := [];
      reg := []; uods := []; exe := []; done := []; que := []; restart_pending := None; now := 0; wok := true; trace := [] |}.
 
-(* Engine._run: apply the safe state to the tags and call write_process_image (a no-op: no run is started) *)
-Definition boot (safe : list (option Z)) (e : E) : E := write_image (fst (apply_safe safe e)).
+(* Engine._run: apply the safe state to the tags and write the process image (forced: no run is started yet) *)
+Definition boot (safe : list (option Z)) (e : E) : E :=
+  let e1 := fst (apply_safe safe e) in
+  emit (set_io e1 (prev e1) (outs e1) (map Some (outs e1))) (EHwWrite (outs e1)).
